@@ -455,6 +455,99 @@ func lifeScript(r *Run, idx int, prop string) {
 	}
 }
 
+// c15OverwriteDuringHandoff: the hand-off worker is parked (hook H7) right after it has written the evicted
+// entry to the secondary store and before it removes the entry from the map; the key is overwritten by a Set;
+// the worker is released. Whatever the order in which the two finish, the value of the completed Set must then
+// be retrievable (from either tier, without a loader run): the entry must not disappear from memory holding a
+// value that was never written to the secondary tier.
+func c15OverwriteDuringHandoff(r *Run, idx int) {
+	kind := []string{"hybrid", "hybrid-loading"}[idx%2]
+	bar := &secBarrier{}
+	var armed atomic.Bool
+	arrived, release := make(chan struct{}, 4), make(chan struct{}, 4)
+	internal.VerifSetHook(func(id int) {
+		bar.hook(id)
+		if id == internal.VPSecWritten && armed.CompareAndSwap(true, false) {
+			arrived <- struct{}{}
+			<-release
+		}
+	})
+	defer internal.VerifSetHook(nil)
+	defer r.Eval(1)
+	var loads atomic.Int64
+	a, err := newAnyCache(kind, anyOpts{MaxSize: 50, KeepLog: true, Workers: 1, Prob: 1, ProbSet: true,
+		Loader: func(ctx context.Context, k int) (theine.Loaded[int64], error) {
+			return theine.Loaded[int64]{Value: 8_000_000 + loads.Add(1), Cost: 1}, nil
+		}})
+	if err != nil {
+		r.Broken("build: %v", err)
+		return
+	}
+	defer a.store().Close()
+	st := a.store()
+	k := 300 + idx
+	v1, v2 := int64(idx)<<8|1, int64(idx)<<8|2
+	a.set(k, v1, 1, 0)
+	a.wait()
+	armed.Store(true)
+	if !st.VerifEvict(k) {
+		r.Inconclusive(1)
+		return
+	}
+	select {
+	case <-arrived:
+	case <-time.After(10 * time.Second):
+		armed.Store(false)
+		r.Inconclusive(1)
+		return
+	}
+	setDone := make(chan bool, 1)
+	go func() { setDone <- a.set(k, v2, 1, 0) }()
+	early := false
+	var setOK bool
+	select {
+	case setOK = <-setDone:
+		early = true // the Set went through while the worker stood between its write and its removal
+	case <-time.After(200 * time.Millisecond):
+	}
+	release <- struct{}{}
+	if !early {
+		select {
+		case setOK = <-setDone:
+		case <-time.After(20 * time.Second):
+			r.Inconclusive(1)
+			return
+		}
+	}
+	if !bar.settle(a) {
+		r.Inconclusive(1)
+		return
+	}
+	r.Count("overwrites_during_a_handoff", 1)
+	if early {
+		r.Count("overwrites_that_completed_while_the_worker_was_parked", 1)
+	}
+	if !setOK {
+		return // refused by the doorkeeper: nothing promised
+	}
+	l0 := loads.Load()
+	v, ok, gerr := a.get(context.Background(), k)
+	ran := loads.Load() > l0
+	if gerr != nil || !ok || ran || v != v2 {
+		key := "evicted-entry-not-retrievable"
+		if ran {
+			key += "/reloaded-instead"
+		}
+		if ok && !ran && v == v1 {
+			key = "retrieved-wrong-value"
+		}
+		key += "/overwritten-between-its-write-back-and-its-removal"
+		r.Violate(key, fmt.Sprintf("%s cache: key %d (value %d) was evicted; its hand-off worker was parked after writing it to the secondary store and before removing it from memory; Set(%d,%d) returned true (while the worker was parked: %v); worker released, all hand-offs processed; Get returned (%d,%v,err=%v), loader ran: %v; in secondary store now: %s",
+			kind, k, v1, k, v2, early, v, ok, gerr, ran, secHas(a, k)), map[string]any{"cache": kind, "secondary_log": tailLog(a.sec.log(), 8)})
+	}
+	r.Distinct("overwrite-during-handoff/" + kind)
+}
+
 func secHas(a *anyCache, k int) string {
 	if rec, ok := a.sec.peek(k); ok {
 		return fmt.Sprintf("yes (value %#x, expire %d)", rec.Val, rec.Expire)
@@ -476,6 +569,12 @@ func runC15(r *Run) {
 	for i := 0; i < ns; i++ {
 		if i%r.NShards == r.Shard {
 			c15Script(r, i)
+		}
+	}
+	no := r.Pick(16, 200)
+	for i := 0; i < no; i++ {
+		if i%r.NShards == r.Shard {
+			c15OverwriteDuringHandoff(r, i)
 		}
 	}
 }
